@@ -207,3 +207,8 @@ def search(rec, ctx):
         check(rec, {"src": s, "stream": "corpus"})
         r = ctx.rng("layout", s[:40])
         check(rec, {"src": layout_variant(r, s), "stream": "corpus-layout"})
+
+    # coverage-guided campaign whose target asserts the same tiling oracle
+    from ..fuzz import campaign
+
+    campaign(rec, ctx, "C08", 400000 if ctx.thorough else 10000, 96 if ctx.thorough else 48)
